@@ -51,7 +51,8 @@ const (
 	// symbolic sets (reduction: see NOTES.md)
 	c19fpFees  = 1 // amount, fee policies, inbound fees, HTLC ranges, capacities, bandwidth, fee limit, CLTV limit symbolic; time-lock data concrete
 	c19fpLocks = 2 // time-lock deltas, height, final CLTV delta, CLTV limit, fee limit symbolic; amounts and fee policies concrete
-	c19fpAll   = 3 // both
+	c19fpRates = 4 // with c19fpFees: proportional fee rates (outbound and inbound) symbolic too
+	c19fpAll   = 7
 )
 
 func c19fpNode(i int) route.Vertex {
@@ -186,15 +187,19 @@ func c19fpChanInput(k, from, to, set int) c19fpChan {
 			// the source's own policy is not charged: only forwarding
 			// nodes get symbolic fee policies
 			c.pol.base = vU64("feeBase")
-			c.pol.rate = vU64("feeRate")
 			vAssume(c.pol.base <= 0xffffffff) // fee_base_msat is a uint32 on the wire
-			vAssume(c.pol.rate <= 1_000_000)  // proportional fee up to 100 %
+			if set&c19fpRates != 0 {
+				c.pol.rate = vU64("feeRate")
+				vAssume(c.pol.rate <= 1_000_000) // proportional fee up to 100 %
+			}
 		}
 		if to != c19fpT {
 			// inbound fee of a forwarding node (the exit hop's is not used)
 			c.pol.ibase = vI32("inboundBase")
-			c.pol.irate = vI32("inboundRate")
-			vAssume(c.pol.irate <= c19InRate && c.pol.irate >= -c19InRate)
+			if set&c19fpRates != 0 {
+				c.pol.irate = vI32("inboundRate")
+				vAssume(c.pol.irate <= c19InRate && c.pol.irate >= -c19InRate)
+			}
 		}
 	}
 	if set&c19fpLocks != 0 && from != c19fpS {
@@ -502,6 +507,7 @@ func c19fpBody(topo, set int) {
 
 // Entries: VerifC19Find<topology><set>.
 func VerifC19FindLineFees()   { c19fpBody(1, c19fpFees) }
+func VerifC19FindLineRates()  { c19fpBody(1, c19fpFees|c19fpRates) }
 func VerifC19FindLineLocks()  { c19fpBody(1, c19fpLocks) }
 func VerifC19FindLineAll()    { c19fpBody(1, c19fpAll) }
 func VerifC19FindLine3Fees()  { c19fpBody(2, c19fpFees) }
